@@ -76,7 +76,7 @@ def tree_digest(root):
     return out
 
 
-def crash_site(tool, text, args=(), timeout=300, fname='in.exp'):
+def crash_site(tool, text, args=(), timeout=120, fname='in.exp'):
     s = _crash_site(tool, text, args, timeout, fname, 'plain')
     if s == 'unknown':
         s = _crash_site(tool, text, args, timeout, fname, 'san')     # larger frames: the instrumented build may be the only one that overflows
